@@ -777,6 +777,13 @@ func (vc *VC) callByContract(fr *frame, st *State, ct *Contract, fo *types.Func,
 		return &specEnv{vc: vc, st: cur, old: old, names: nm, pkg: pk, allocB: allocB, pos: pos}
 	}
 	vc.callCount(fr, short)
+	if r := sig.Recv(); r != nil && recv != nil && !vc.noSafety {
+		if _, isPtr := r.Type().Underlying().(*types.Pointer); isPtr {
+			if rt, ok := recv.(Term); ok && rt.Sort == SInt {
+				vc.oblige(st, "safety", "nil", pos, Not(Eq(rt, IntLit(0))), "method call on nil receiver")
+			}
+		}
+	}
 	// preconditions
 	for i, rq := range ct.Requires {
 		g := mkEnv(st, nil, st.alloc).evalBool(rq.Expr)
